@@ -38,6 +38,11 @@ func runC17(p *eng.Prog, r *eng.Report, tier string) {
 			nret++
 			pt, _ := g.Where(rs)
 			form := ""
+			if res := retResults(f, rs); len(res) == 1 && len(rs.Results) != 1 {
+				if cl, ok := ast.Unparen(res[0]).(*ast.CallExpr); ok && split[f.CalleeID(cl)] && len(cl.Args) == 2 && f.Norm(cl.Args[0], nil) == "p0" && f.Norm(cl.Args[1], nil) == "p1" {
+					form = "tail call"
+				}
+			}
 			switch len(rs.Results) {
 			case 1:
 				if cl, ok := ast.Unparen(rs.Results[0]).(*ast.CallExpr); ok && split[f.CalleeID(cl)] && len(cl.Args) == 2 && f.Norm(cl.Args[0], nil) == "p0" && f.Norm(cl.Args[1], nil) == "p1" {
